@@ -303,6 +303,55 @@ def run(ctx):
                 if stats["solver_history_crashes"] <= 3:
                     ctx.notes.append("%s history crashed with %r after %r" % (cls.__name__, ex, hist[-1:]))
                 continue
+    # ---- the Z3 backend asked directly, from fresh threads that run strictly one after the other (each thread has its own Z3
+    # context, so converted expressions and their ids start afresh): a True answer must hold for every assignment
+    import threading
+    z3b = claripy.backends.z3
+    for rnd in range(ctx.pick(25, 300)):
+        w = 3
+        x, y = claripy.BVS("sx", w, explicit_name=True), claripy.BVS("sy", w, explicit_name=True)
+
+        def mk():
+            a_, b_ = rng.sample([x + y, y + x, x - y, y - x, x & y, x | y, x ^ y, x * 3, x, y, claripy.BVV(rng.randrange(8), w)], 2)
+            cmp_ = rng.choice([claripy.ULE, claripy.ULT, claripy.UGE, claripy.UGT, claripy.SLE, claripy.SLT, lambda p_, q_: p_ == q_, lambda p_, q_: p_ != q_])
+            e_ = cmp_(a_, b_)
+            if rng.random() < 0.25:
+                e_ = claripy.Or(e_, rng.choice([claripy.UGE(x, 0), x == x + 0, claripy.ULT(y, y)])) if rng.random() < 0.5 else claripy.And(e_, x + y == y + x)
+            return e_
+        scripts = []
+        for t_ in range(rng.choice([2, 3, 4])):
+            qs = [q for q in (mk() for _ in range(rng.choice([2, 4, 8]))) if isinstance(q, claripy.ast.Bool) and q.symbolic]
+            scripts.append(qs)
+        bad = []
+
+        def worker(qs):
+            for q in qs:
+                try:
+                    qt = E.from_ast(q)
+                except E.Unsupported:
+                    continue
+                vals = {E.ev(qt, {"sx": a, "sy": b})[1] for a in range(8) for b in range(8)}
+                for kind, fn in (("T", z3b.is_true), ("F", z3b.is_false)):
+                    try:
+                        ans = fn(q)
+                    except claripy.errors.ClaripyError:
+                        continue
+                    if ans and ((kind == "T" and False in vals) or (kind == "F" and True in vals)):
+                        bad.append((kind, q))
+        for qs in scripts:
+            th = threading.Thread(target=worker, args=(qs,))
+            th.start(); th.join()
+            ctx.count()
+        stats["z3_backend_thread_scripts"] += len(scripts)
+        if bad:
+            kind, q = bad[0]
+            ctx.violation("C10/backends.z3.%s/not-valid-in-another-thread" % ("is_true" if kind == "T" else "is_false"),
+                          "backends.z3.%s(%r) answered True in a fresh thread although the expression can be %s (threads ran one after the other)" % (
+                              "is_true" if kind == "T" else "is_false", q, "False" if kind == "T" else "True"),
+                          {"scripts": [[repr(q_) for q_ in qs] for qs in scripts], "query": repr(q), "kind": kind})
+            break
+        if rng.random() < 0.1:
+            z3b.downsize()
     ctx.cov["traces_validated_against_impl"] = agree
     ctx.cov["input_distribution"] = {"histories": len(lines), "queries": sum(len(w_) for w_ in wants), **dict(stats)}
     if lines:
